@@ -64,11 +64,13 @@ def gen(rng, facts):
                 last += [('log', u, c.next_id, 0, 4, HDR_LOG + pad, 0, False), ('exit', u)]
                 inj.append((rng.choice([3, 4, 6, 7, 8, 8]), 0, last)); c.next_id += 1
             c.poll(inj)
+    n0 = len(c.cmds)
     for _ in range(5):
         for t in range(nt): c.resume(t)
         c.tick(2000)
         for _ in range(10): c.poll()
     c.ctx()
+    c.keep_tail = len(c.cmds) - n0
     c.final_live = None
     return c
 
